@@ -28,6 +28,9 @@ def run(res, only=None):
     from . import p_c03
     p_c03.linalg_cases(res, cfgs, only_kinds="conv")
     # code -> spec: random access histories of every matrix / affine type validated against the register machine (Trace_C06.tla extends MC_C06)
+    # the order of iterated products (column-vector convention: items.iter().product() = m0 * m1 * m2, the LAST item is applied first), for
+    # matrices and affine transforms, 0..3 non-commuting items (MC_Fold.tla)
+    core.fold_cases(res, cfgs, ["mat", "aff"])
     core.record_and_validate(res, "macc", cfgs, draws=3 if res.tier == "quick" else 60, module="Trace_C06", chunks=1, expect_kinds=("macc",))
     # code -> spec: M*v = sum v[c]*col(c) and transform_point = linear*p + translation on arbitrary real entries (Trace_Poly.tla)
     core.record_and_validate(res, "poly", [c for c in cfgs if c != "sse2-rel"], draws=6 if res.tier == "quick" else 200, module="Trace_Poly",
